@@ -27,7 +27,8 @@ def image_type(obmap, t):
 
 def gen_key(b):
     dom, cod = (b["cod"], b["dom"]) if b.get("dag") else (b["dom"], b["cod"])
-    return (b["name"], specs.skey_ty(dom), specs.skey_ty(cod))
+    return (b["name"], specs.skey_ty(dom), specs.skey_ty(cod),
+            bool(b.get("word")))
 
 
 def block_swap_layers(cls, left, right):
@@ -87,10 +88,11 @@ def build_functor(fspec, cls):
         ob = {specs.ty(cls, [[n, 0]]): specs.ty(cls, img)
               for n, img in obmap.items()}
     ar = {}
-    for (name, dom, cod), img in fspec["images"].items():
+    for (name, dom, cod, word), img in fspec["images"].items():
         box = specs.box(cls, {"k": "box", "name": name,
                               "dom": [list(x) for x in dom],
-                              "cod": [list(x) for x in cod], "dag": False})
+                              "cod": [list(x) for x in cod], "dag": False,
+                              "word": word})
         ar[box] = specs.build(img, fspec.get("route", "ctor"))
     if fspec.get("callable"):
         ob_d, ar_d = ob, ar
@@ -124,12 +126,13 @@ def functor_cases(draw, tier):
             if b["k"] != "box" or gen_key(b) in seen:
                 continue
             seen.add(gen_key(b))
-            name, dom, cod = gen_key(b)
+            name, dom, cod, word = gen_key(b)
             img = draw(gen.diagrams_to(
                 cls, image_type(obmap, dom), image_type(obmap, cod),
                 pool=tpool, names=TARGET, max_boxes=2, max_width=5))
             images.append({"gen": [name, [list(x) for x in dom],
-                                   [list(x) for x in cod]], "image": img})
+                                   [list(x) for x in cod], word],
+                           "image": img})
     n = len(d["layers"])
     i = draw(st.integers(0, n))
     return {"cls": cls, "d": d, "e": e, "par": par, "ob": obmap,
@@ -141,8 +144,9 @@ def functor_cases(draw, tier):
 def fspec_of(case):
     return {"ob": case["ob"], "callable": case["callable"],
             "images": {(g["gen"][0], specs.skey_ty(g["gen"][1]),
-                        specs.skey_ty(g["gen"][2])): g["image"]
-                       for g in case["images"]}}
+                        specs.skey_ty(g["gen"][2]),
+                        bool(g["gen"][3]) if len(g["gen"]) > 3 else False):
+                       g["image"] for g in case["images"]}}
 
 
 def eq(x, y, label, detail=""):
